@@ -1,4 +1,5 @@
-(* C05 proofs *)
+(* C05 proofs: the deriver order, the permission table of _secured_view, trace invariants of the
+   call semantics (mediation, refusal, source of HTTPForbidden, attribution of policy calls). *)
 From Coq Require Import List NArith ZArith Bool Lia.
 Import ListNotations.
 Require Import Verif.Lib.Wire Verif.Gen.Facts_C03 Verif.Model.C03 Verif.Gen.Facts_C05 Verif.Model.C05.
@@ -6,7 +7,562 @@ Require Verif.Gen.Facts_C18 Verif.Model.C18.
 Local Close Scope N_scope.
 Local Open Scope nat_scope.
 
+(* ================================================================== *)
+(* the deriver order, computed from the regenerated declarations *)
+
 Lemma deriver_names_eq :
   deriver_names = [nm_attr_wrapped_view; nm_predicated_view; nm_secured_view; nm_csrf_view; nm_owrapped_view;
                    nm_http_cached_view; nm_decorated_view; nm_rendered_view; nm_mapped_view].
 Proof. vm_compute. reflexivity. Qed.
+
+Lemma secured_outermost :
+  exists ds mid,
+    C18.sorted C18.default_derivers = C18.Sorted ds /\
+    map fst ds = nm_secured_view :: mid ++ [nm_mapped_view] /\
+    ~ In nm_secured_view mid /\
+    deriver_names = Facts_C18.dv_outer ++ map fst ds.
+Proof.
+  eexists. exists [nm_csrf_view; nm_owrapped_view; nm_http_cached_view; nm_decorated_view; nm_rendered_view].
+  split; [vm_compute; reflexivity|]. split; [vm_compute; reflexivity|]. split; [|vm_compute; reflexivity].
+  intros H. repeat (destruct H as [H|H]; [discriminate H|]). exact H.
+Qed.
+
+Definition pred_part (d : dview) : list wrapper := match r_preds (d_reg d) with [] => [] | _ => [WPred] end.
+Definition sec_part (d : dview) : list wrapper := match d_perm d with Some p => [WSecured p] | None => [] end.
+Definition ow_part (d : dview) : list wrapper := match d_wrapper d with [] => [] | n => [WOWrapped n] end.
+Definition deco_part (d : dview) : list wrapper := if d_deco d then [WDeco] else [].
+
+(* predicates first, then the permission check, then the wrapper view, then the decorator, then the callable *)
+Lemma wrappers_shape d : wrappers d = pred_part d ++ sec_part d ++ ow_part d ++ deco_part d.
+Proof.
+  unfold wrappers. rewrite deriver_names_eq.
+  unfold pred_part, sec_part, ow_part, deco_part.
+  cbn [flat_map].
+  change (wrap_of d nm_attr_wrapped_view) with (@nil wrapper).
+  change (wrap_of d nm_csrf_view) with (@nil wrapper).
+  change (wrap_of d nm_http_cached_view) with (@nil wrapper).
+  change (wrap_of d nm_rendered_view) with (@nil wrapper).
+  change (wrap_of d nm_mapped_view) with (@nil wrapper).
+  change (wrap_of d nm_predicated_view) with (match r_preds (d_reg d) with [] => [] | _ => [WPred] end).
+  change (wrap_of d nm_secured_view) with (match d_perm d with Some p => [WSecured p] | None => [] end).
+  change (wrap_of d nm_owrapped_view) with (match d_wrapper d with [] => [] | n => [WOWrapped n] end).
+  change (wrap_of d nm_decorated_view) with (if d_deco d then [WDeco] else []).
+  rewrite !app_nil_l, !app_nil_r. reflexivity.
+Qed.
+
+(* ================================================================== *)
+(* the permission _secured_view closes over *)
+
+Lemma secured_permission_spec st eo perm p :
+  secured_permission st eo perm = Some p <->
+  rs_policy st = true /\ is_npr p = false /\
+  (perm = Some p \/ (perm = None /\ eo = false /\ rs_defperm st = Some p)).
+Proof.
+  unfold secured_permission.
+  destruct (rs_policy st), eo, perm as [q|], (rs_defperm st) as [dq|]; cbn;
+    try destruct (is_npr q) eqn:Eq; try destruct (is_npr dq) eqn:Edq; cbn;
+    (split; [intros H; try discriminate H; try (inversion H; subst; clear H) | intros (H1 & H2 & H3)]);
+    repeat match goal with
+           | |- _ /\ _ => split
+           | |- true = true => reflexivity
+           | H : _ \/ _ |- _ => destruct H
+           | H : _ /\ _ |- _ => destruct H
+           | H : Some _ = Some _ |- _ => inversion H; subst; clear H
+           | H : None = Some _ |- _ => discriminate H
+           | H : Some _ = None |- _ => discriminate H
+           | H : false = true |- _ => discriminate H
+           | H : true = false |- _ => discriminate H
+           end; try congruence; auto.
+Qed.
+
+(* the table, row by row *)
+Lemma secured_no_policy st eo perm : rs_policy st = false -> secured_permission st eo perm = None.
+Proof. unfold secured_permission. intros ->. destruct (if negb eo && is_none perm then _ else _) as [q|]; [destruct (is_npr q)|]; reflexivity. Qed.
+
+Lemma secured_explicit st eo p :
+  rs_policy st = true -> is_npr p = false -> secured_permission st eo (Some p) = Some p.
+Proof. intros. apply secured_permission_spec. auto. Qed.
+
+Lemma secured_marker st eo p : is_npr p = true -> secured_permission st eo (Some p) = None.
+Proof.
+  intros H. destruct (secured_permission st eo (Some p)) as [q|] eqn:E; [|reflexivity].
+  apply secured_permission_spec in E. destruct E as (_ & Hq & [E|(E & _)]); [inversion E; subst; congruence|discriminate].
+Qed.
+
+Lemma secured_default st p :
+  rs_policy st = true -> rs_defperm st = Some p -> is_npr p = false -> secured_permission st false None = Some p.
+Proof. intros. apply secured_permission_spec. split; [assumption|]. split; [assumption|]. right. auto. Qed.
+
+Lemma secured_exception_only_no_default st : secured_permission st true None = None.
+Proof.
+  destruct (secured_permission st true None) as [q|] eqn:E; [|reflexivity].
+  apply secured_permission_spec in E. destruct E as (_ & _ & [E|(_ & E & _)]); discriminate.
+Qed.
+
+Lemma secured_nothing st eo : rs_defperm st = None -> secured_permission st eo None = None.
+Proof.
+  intros H. destruct (secured_permission st eo None) as [q|] eqn:E; [|reflexivity].
+  apply secured_permission_spec in E. destruct E as (_ & _ & [E|(_ & _ & E)]); congruence.
+Qed.
+
+(* ================================================================== *)
+(* trace invariants *)
+
+Definition body_behave (b : body) : behave := match b with Plain bh => bh | Slash _ bh => bh end.
+
+Section Inv.
+  Variable R : registry.
+  Variable D : list (N * dview).
+  Variable tb : grants.
+  Variable q : rq5.
+
+  (* --- mediation *)
+  Definition head_ok (seen : trace) (e : event) : Prop :=
+    match e with
+    | Body t c | Deco t c => forall d p, assocN t D = Some d -> d_perm d = Some p -> In (Permits p c true) seen
+    | _ => True
+    end.
+  Fixpoint guarded_from (seen tr : trace) : Prop :=
+    match tr with
+    | [] => True
+    | e :: r => head_ok seen e /\ guarded_from (e :: seen) r
+    end.
+
+  Lemma head_ok_weaken seen seen' e : (forall x, In x seen -> In x seen') -> head_ok seen e -> head_ok seen' e.
+  Proof. destruct e; simpl; auto; intros Hs H d p' Hd Hp; apply Hs; eauto. Qed.
+
+  Lemma guarded_weaken tr : forall seen seen',
+    (forall x, In x seen -> In x seen') -> guarded_from seen tr -> guarded_from seen' tr.
+  Proof.
+    induction tr as [|e r IH]; simpl; intros seen seen' Hs H; [exact I|].
+    destruct H as [H1 H2]. split; [eapply head_ok_weaken; eauto|].
+    eapply IH; [|exact H2]. intros x [->|Hx]; [left; reflexivity|right; auto].
+  Qed.
+
+  Lemma guarded_app a : forall seen b,
+    guarded_from seen a -> guarded_from [] b -> guarded_from seen (a ++ b).
+  Proof.
+    induction a as [|e r IH]; simpl; intros seen b Ha Hb.
+    - eapply guarded_weaken; [|exact Hb]. intros x [].
+    - destruct Ha as [H1 H2]. split; [exact H1|]. apply IH; assumption.
+  Qed.
+
+  (* positional reading *)
+  Lemma guarded_nth tr : forall seen i e t c d p,
+    guarded_from seen tr -> nth_error tr i = Some e -> (e = Body t c \/ e = Deco t c) ->
+    assocN t D = Some d -> d_perm d = Some p ->
+    In (Permits p c true) seen \/ exists j, j < i /\ nth_error tr j = Some (Permits p c true).
+  Proof.
+    induction tr as [|x r IH]; intros seen i e t c d p G Hn He Hd Hp; [destruct i; discriminate|].
+    destruct G as [G1 G2]. destruct i as [|i]; simpl in Hn.
+    - inversion Hn; subst x. left. destruct He as [->| ->]; simpl in G1; eauto.
+    - destruct (IH _ _ _ _ _ _ _ G2 Hn He Hd Hp) as [[Hx|Hin]|(j & Hj & Hnj)].
+      + right. exists 0. split; [lia|]. simpl. rewrite Hx. reflexivity.
+      + left. exact Hin.
+      + right. exists (S j). split; [lia|exact Hnj].
+  Qed.
+
+  (* --- refusal: a refused check is the last event of its call, and the call raises HTTPForbidden *)
+  Fixpoint refusal_last (tr : trace) (o : res) : Prop :=
+    match tr with
+    | [] => True
+    | Permits _ _ false :: r => r = [] /\ o = Raise EForbidden
+    | _ :: r => refusal_last r o
+    end.
+
+  Lemma refusal_last_app a : forall oa b ob,
+    refusal_last a oa -> oa <> Raise EForbidden -> refusal_last b ob -> refusal_last (a ++ b) ob.
+  Proof.
+    induction a as [|e r IH]; simpl; intros oa b ob Ha Hne Hb; [exact Hb|].
+    destruct e as [p c [|]| | |]; try (eapply IH; eauto).
+    destruct Ha as [_ Ha]. contradiction.
+  Qed.
+
+  Lemma refusal_last_res tr o o' : refusal_last tr o -> o <> Raise EForbidden -> refusal_last tr o'.
+  Proof.
+    induction tr as [|e r IH]; simpl; intros H Hne; [exact I|].
+    destruct e as [p c [|]| | |]; auto. destruct H as [_ H]. contradiction.
+  Qed.
+
+  Lemma refusal_last_nth tr : forall o j p c,
+    refusal_last tr o -> nth_error tr j = Some (Permits p c false) -> S j = length tr /\ o = Raise EForbidden.
+  Proof.
+    induction tr as [|e r IH]; intros o j p c H Hn; [destruct j; discriminate|].
+    destruct j as [|j]; simpl in Hn.
+    - inversion Hn; subst e. simpl in H. destruct H as [-> ->]. split; reflexivity.
+    - assert (Hr : refusal_last r o).
+      { destruct e as [p' c' [|]| | |]; simpl in H; auto. destruct H as [-> _]. destruct j; discriminate. }
+      destruct (IH _ _ _ _ Hr Hn) as [H1 H2]. split; [simpl; lia|exact H2].
+  Qed.
+
+  (* --- HTTPForbidden comes from a refusal or from the application *)
+  Fixpoint last_opt (tr : trace) : option event :=
+    match tr with [] => None | [e] => Some e | _ :: r => last_opt r end.
+
+  Definition forbidding (e : event) : Prop :=
+    match e with
+    | Permits _ _ false => True
+    | Body t _ => exists d, assocN t D = Some d /\ body_behave (d_body d) = BRaise EForbidden
+    | _ => False
+    end.
+  Definition forb_src (tr : trace) (o : res) : Prop :=
+    o = Raise EForbidden -> exists e, last_opt tr = Some e /\ forbidding e.
+
+  Lemma last_opt_cons x tr e : last_opt tr = Some e -> last_opt (x :: tr) = Some e.
+  Proof. destruct tr; [discriminate|]. simpl. auto. Qed.
+
+  Lemma last_opt_app a b e : last_opt b = Some e -> last_opt (a ++ b) = Some e.
+  Proof. induction a as [|x a IH]; simpl; intros H; [exact H|]. apply IH in H. destruct (a ++ b); [discriminate|exact H]. Qed.
+
+  Lemma forb_src_app a b o : forb_src b o -> forb_src (a ++ b) o.
+  Proof. intros H Ho. destruct (H Ho) as (e & He & Hf). exists e. split; [apply last_opt_app; exact He|exact Hf]. Qed.
+
+  Lemma forb_src_cons x tr o : forb_src tr o -> forb_src (x :: tr) o.
+  Proof. intros H. apply (forb_src_app [x]). exact H. Qed.
+
+  Lemma forb_src_other tr o : o <> Raise EForbidden -> forb_src tr o.
+  Proof. intros H Ho. contradiction. Qed.
+
+  (* --- every policy call is made on behalf of a registered view that closed over that permission *)
+  Definition on_behalf (p : text) : Prop :=
+    exists t d, assocN t D = Some d /\ (d_perm d = Some p \/ exists bh, d_body d = Slash (Some p) bh).
+  Definition perm_src (tr : trace) : Prop := forall p c b, In (Permits p c b) tr -> on_behalf p.
+
+  Lemma perm_src_app a b : perm_src a -> perm_src b -> perm_src (a ++ b).
+  Proof. intros Ha Hb p c x H. apply in_app_or in H. destruct H; eauto. Qed.
+
+  (* --- the three position-free invariants together *)
+  Definition inv3 (x : trace * res) : Prop :=
+    refusal_last (fst x) (snd x) /\ forb_src (fst x) (snd x) /\ perm_src (fst x).
+
+  Lemma inv3_nil o : o <> Raise EForbidden -> inv3 ([], o).
+  Proof. intros H. repeat split; simpl; [apply forb_src_other; exact H|intros p c b []]. Qed.
+
+  Lemma inv3_seq a oa b ob : inv3 (a, oa) -> oa <> Raise EForbidden -> inv3 (b, ob) -> inv3 (a ++ b, ob).
+  Proof.
+    intros (A1 & A2 & A3) Hne (B1 & B2 & B3). simpl in *. repeat split; simpl.
+    - eapply refusal_last_app; eauto.
+    - apply forb_src_app. exact B2.
+    - apply perm_src_app; assumption.
+  Qed.
+
+  Lemma inv3_res tr o o' : inv3 (tr, o) -> o <> Raise EForbidden -> o' <> Raise EForbidden -> inv3 (tr, o').
+  Proof.
+    intros (A1 & A2 & A3) H H'. simpl in *. repeat split; simpl; [eapply refusal_last_res; eauto|apply forb_src_other; exact H'|exact A3].
+  Qed.
+
+  Definition good (x : trace * res) : Prop := guarded_from [] (fst x) /\ inv3 x.
+
+  Lemma good_nil o : o <> Raise EForbidden -> good ([], o).
+  Proof. intros H. split; [exact I|apply inv3_nil; exact H]. Qed.
+
+  Lemma good_seq a oa b ob : good (a, oa) -> oa <> Raise EForbidden -> good (b, ob) -> good (a ++ b, ob).
+  Proof.
+    intros [G1 I1] Hne [G2 I2]. split; simpl in *; [apply guarded_app; assumption|eapply inv3_seq; eauto].
+  Qed.
+
+  (* ---------------------------------------------------------------- *)
+  (* the derived view *)
+
+  Lemma behave_res_forb t bh : behave_res t bh = Raise EForbidden -> bh = BRaise EForbidden.
+  Proof. destruct bh as [|e]; simpl; [discriminate|]. intros H; inversion H; reflexivity. Qed.
+
+  Lemma run_body_inv3 d t c : assocN t D = Some d -> inv3 (run_body tb (d_body d) t c).
+  Proof.
+    intros Hd. unfold run_body. destruct (d_body d) as [bh|ip bh] eqn:Eb.
+    - repeat split; simpl.
+      + intros Ho. eexists. split; [reflexivity|]. simpl. exists d. split; [exact Hd|].
+        rewrite Eb. simpl. apply behave_res_forb in Ho. exact Ho.
+      + intros p c' b [H|[]]. discriminate H.
+    - destruct ip as [p|].
+      + destruct (granted tb p c); repeat split; simpl.
+        * intros Ho. eexists. split; [reflexivity|]. simpl. exists d. split; [exact Hd|].
+          rewrite Eb. simpl. apply behave_res_forb in Ho. exact Ho.
+        * intros p' c' b [H|[H|[]]]; [|discriminate H]. inversion H; subst.
+          exists t, d. split; [exact Hd|]. right. exists bh. exact Eb.
+        * intros _. eexists. split; [reflexivity|exact I].
+        * intros p' c' b [H|[]]. inversion H; subst.
+          exists t, d. split; [exact Hd|]. right. exists bh. exact Eb.
+      + repeat split; simpl.
+        * intros Ho. eexists. split; [reflexivity|]. simpl. exists d. split; [exact Hd|].
+          rewrite Eb. simpl. apply behave_res_forb in Ho. exact Ho.
+        * intros p c' b [H|[]]. discriminate H.
+  Qed.
+
+  Lemma res_not_forb_ret t : Ret t <> Raise EForbidden.
+  Proof. discriminate. Qed.
+
+  Section WithLookup.
+    Variable lookup : text -> ctx -> trace * res.
+    Hypothesis lookup_good : forall n c, good (lookup n c).
+
+    Lemma run_ws_inv3 d t c ws :
+      assocN t D = Some d -> (forall p, In (WSecured p) ws -> d_perm d = Some p) ->
+      inv3 (run_ws tb q lookup ws d t c).
+    Proof.
+      intros Hd. induction ws as [|w r IH]; intros Hs; simpl.
+      - apply run_body_inv3. exact Hd.
+      - assert (Hr : forall p, In (WSecured p) r -> d_perm d = Some p) by (intros p Hp; apply Hs; right; exact Hp).
+        specialize (IH Hr).
+        destruct w as [|p|n|].
+        + destruct (qualifies (q_base q) (d_reg d)); [exact IH|]. apply inv3_nil. discriminate.
+        + destruct (granted tb p c).
+          * destruct (run_ws tb q lookup r d t c) as [tr o]. destruct IH as (A1 & A2 & A3). simpl in *.
+            repeat split; simpl; [exact A1|apply forb_src_cons; exact A2|].
+            intros p' c' b [H|H]; [|eauto]. inversion H; subst.
+            exists t, d. split; [exact Hd|]. left. apply Hs. left. reflexivity.
+          * repeat split; simpl.
+            -- intros _. eexists. split; [reflexivity|exact I].
+            -- intros p' c' b [H|[]]. inversion H; subst.
+               exists t, d. split; [exact Hd|]. left. apply Hs. left. reflexivity.
+        + destruct (run_ws tb q lookup r d t c) as [tr o].
+          destruct o as [t'|e| |]; try exact IH.
+          destruct (lookup_good n c) as [_ L]. destruct (lookup n c) as [tr2 o2].
+          assert (inv3 (tr ++ tr2, o2)) as H2 by (eapply inv3_seq; [exact IH|discriminate|exact L]).
+          destruct o2 as [t2|e2| |]; try exact H2.
+          eapply inv3_res; [exact H2|discriminate|discriminate].
+        + destruct (run_ws tb q lookup r d t c) as [tr o]. destruct IH as (A1 & A2 & A3). simpl in *.
+          repeat split; simpl; [exact A1|apply forb_src_cons; exact A2|].
+          intros p' c' b [H|H]; [discriminate H|eauto].
+    Qed.
+
+    (* the decorator and the callable of a view that closed over p only run after Permits p c true:
+       either the check was already seen, or WSecured p comes before every WDeco of the list *)
+    Fixpoint sec_first (p : text) (ws : list wrapper) : bool :=
+      match ws with
+      | [] => false
+      | WSecured p' :: r => text_eqb p p' || sec_first p r
+      | WDeco :: _ => false
+      | _ :: r => sec_first p r
+      end.
+
+    Lemma body_trace_guarded seen d t c :
+      assocN t D = Some d ->
+      (forall p, d_perm d = Some p -> In (Permits p c true) seen) ->
+      guarded_from seen (fst (run_body tb (d_body d) t c)).
+    Proof.
+      intros Hd Hc. unfold run_body.
+      assert (Hb : forall seen', (forall x, In x seen -> In x seen') -> head_ok seen' (Body t c)).
+      { intros seen' Hs d' p' Hd' Hp'. rewrite Hd in Hd'. inversion Hd'; subst d'. apply Hs. auto. }
+      destruct (d_body d) as [bh|[p|] bh]; simpl.
+      - split; [apply (Hb seen); auto|exact I].
+      - destruct (granted tb p c); simpl.
+        + split; [exact I|]. split; [apply (Hb (Permits p c true :: seen)); intros x Hx; right; exact Hx|exact I].
+        + split; exact I.
+      - split; [apply (Hb seen); auto|exact I].
+    Qed.
+
+    Lemma run_ws_guarded d t c ws : forall seen,
+      assocN t D = Some d ->
+      (forall p, d_perm d = Some p -> In (Permits p c true) seen \/ sec_first p ws = true) ->
+      guarded_from seen (fst (run_ws tb q lookup ws d t c)).
+    Proof.
+      induction ws as [|w r IH]; intros seen Hd Hc; simpl.
+      - apply body_trace_guarded; [exact Hd|]. intros p Hp. destruct (Hc p Hp) as [H|H]; [exact H|discriminate H].
+      - destruct w as [|p|n|].
+        + destruct (qualifies (q_base q) (d_reg d)); [|exact I]. apply IH; [exact Hd|]. exact Hc.
+        + destruct (granted tb p c); [|simpl; split; exact I].
+          specialize (IH (Permits p c true :: seen) Hd).
+          destruct (run_ws tb q lookup r d t c) as [tr o]. simpl in *. split; [exact I|].
+          apply IH. intros p' Hp'. destruct (Hc p' Hp') as [H|H]; [left; right; exact H|].
+          apply orb_true_iff in H. destruct H as [H|H]; [|right; exact H].
+          apply text_eqb_eq in H. subst p'. left. left. reflexivity.
+        + specialize (IH seen Hd Hc).
+          destruct (run_ws tb q lookup r d t c) as [tr o]. simpl in IH.
+          destruct o as [t'|e| |]; simpl; try exact IH.
+          destruct (lookup_good n c) as [L _]. destruct (lookup n c) as [tr2 o2]. simpl in *.
+          apply guarded_app; assumption.
+        + assert (Hin : forall p, d_perm d = Some p -> In (Permits p c true) seen).
+          { intros p Hp. destruct (Hc p Hp) as [H|H]; [exact H|discriminate H]. }
+          specialize (IH (Deco t c :: seen) Hd).
+          destruct (run_ws tb q lookup r d t c) as [tr o]. simpl in *. split.
+          * intros d' p' Hd' Hp'. rewrite Hd in Hd'. inversion Hd'; subst d'. auto.
+          * apply IH. intros p Hp. left. right. auto.
+    Qed.
+
+    Lemma sec_first_wrappers d p : d_perm d = Some p -> sec_first p (wrappers d) = true.
+    Proof.
+      intros Hp. rewrite wrappers_shape. unfold pred_part, sec_part. rewrite Hp.
+      destruct (r_preds (d_reg d)); simpl; rewrite text_eqb_refl; reflexivity.
+    Qed.
+
+    Lemma wrappers_secured d p : In (WSecured p) (wrappers d) -> d_perm d = Some p.
+    Proof.
+      rewrite wrappers_shape. unfold pred_part, sec_part, ow_part, deco_part. intros H.
+      repeat (apply in_app_or in H; destruct H as [H|H]).
+      - destruct (r_preds (d_reg d)); [destruct H|]. destruct H as [H|[]]; discriminate H.
+      - destruct (d_perm d) as [p'|]; [|destruct H]. destruct H as [H|[]]. inversion H; reflexivity.
+      - destruct (d_wrapper d); [destruct H|]. destruct H as [H|[]]; discriminate H.
+      - destruct (d_deco d); [|destruct H]. destruct H as [H|[]]; discriminate H.
+    Qed.
+
+    Lemma call_reg_good v c : good (call_reg D tb q lookup v c).
+    Proof.
+      unfold call_reg. destruct (assocN (r_tag v) D) as [d|] eqn:Hd; [|apply good_nil; discriminate].
+      split.
+      - apply run_ws_guarded; [exact Hd|]. intros p Hp. right. apply sec_first_wrappers. exact Hp.
+      - apply run_ws_inv3; [exact Hd|]. apply wrappers_secured.
+    Qed.
+
+    Lemma good_pair (x : trace * res) : good x -> good (fst x, snd x).
+    Proof. destruct x; auto. Qed.
+
+    Lemma mv_call5_good l c : good (mv_call5 D tb q lookup l c).
+    Proof.
+      induction l as [|e r IH]; simpl; [apply good_nil; discriminate|].
+      pose proof (call_reg_good (e_view e) c) as H.
+      destruct (call_reg D tb q lookup (e_view e) c) as [tr o].
+      destruct o as [t|x| |]; try exact H.
+      destruct x; try exact H.
+      destruct (mv_call5 D tb q lookup r c) as [tr2 o2].
+      eapply good_seq; [exact H|discriminate|exact IH].
+    Qed.
+
+    Lemma call_component5_good cmp c : good (call_component5 D tb q lookup cmp c).
+    Proof. destruct cmp; simpl; [apply call_reg_good|apply mv_call5_good]. Qed.
+
+    Lemma call_loop5_good l c : forall pme, good (call_loop5 D tb q lookup l c pme).
+    Proof.
+      induction l as [|cmp r IH]; intros pme; simpl.
+      - apply good_nil. destruct pme; discriminate.
+      - pose proof (call_component5_good cmp c) as H.
+        destruct (call_component5 D tb q lookup cmp c) as [tr o].
+        destruct o as [t|x| |]; try exact H.
+        destruct x; try exact H.
+        specialize (IH true).
+        destruct (call_loop5 D tb q lookup r c true) as [tr2 o2].
+        eapply good_seq; [exact H|discriminate|exact IH].
+    Qed.
+  End WithLookup.
+
+  Lemma call_view5_good fuel : forall cls req_sro name c, good (call_view5 R D tb q fuel cls req_sro name c).
+  Proof.
+    induction fuel as [|f IH]; intros cls req_sro name c; simpl; [apply good_nil; discriminate|].
+    apply call_loop5_good. intros n c'. apply IH.
+  Qed.
+
+  Lemma handle_request_good : good (handle_request R D tb q).
+  Proof.
+    unfold handle_request.
+    pose proof (call_view5_good fuel0 view_classifier (q_main_sro q) (q_view_name (q_base q)) (q_ctx q)) as H.
+    destruct (call_view5 R D tb q fuel0 view_classifier (q_main_sro q) (q_view_name (q_base q)) (q_ctx q)) as [tr o].
+    destruct o as [t|e| |]; try exact H.
+    destruct H as [G I3]. split; [exact G|]. eapply inv3_res; [exact I3|discriminate|discriminate].
+  Qed.
+
+  (* ---------------------------------------------------------------- *)
+  (* router level *)
+
+  Lemma guarded_raised seen e tr : guarded_from [] tr -> guarded_from seen (Raised e :: tr).
+  Proof. intros H. simpl. split; [exact I|]. eapply guarded_weaken; [|exact H]. intros x []. Qed.
+
+  Lemma router_split :
+    exists tr1 o1,
+      handle_request R D tb q = (tr1, o1) /\ good (tr1, o1) /\
+      match o1 with
+      | Ret t => router_call R D tb q = (tr1, Resp t)
+      | Raise e =>
+          exists tr2 o2,
+            call_view5 R D tb q fuel0 exc_classifier (q_comb_sro q) [] (CExc e) = (tr2, o2) /\ good (tr2, o2) /\
+            fst (router_call R D tb q) = tr1 ++ Raised e :: tr2 /\
+            (o2 = Raise EForbidden -> snd (router_call R D tb q) = Propagated EForbidden) /\
+            (snd (router_call R D tb q) = Propagated EForbidden -> o2 = Raise EForbidden \/ e = EForbidden)
+      | _ => router_call R D tb q = (tr1, FStuck)
+      end.
+  Proof.
+    pose proof handle_request_good as H. unfold router_call.
+    destruct (handle_request R D tb q) as [tr1 o1]. exists tr1, o1. split; [reflexivity|]. split; [exact H|].
+    destruct o1 as [t|e| |]; try reflexivity.
+    pose proof (call_view5_good fuel0 exc_classifier (q_comb_sro q) [] (CExc e)) as H2.
+    destruct (call_view5 R D tb q fuel0 exc_classifier (q_comb_sro q) [] (CExc e)) as [tr2 o2].
+    exists tr2, o2. split; [reflexivity|]. split; [exact H2|]. split; [reflexivity|]. split.
+    - intros ->. reflexivity.
+    - simpl. destruct o2 as [t2|e2| |]; try discriminate.
+      + destruct e2; try discriminate; intros Hp; inversion Hp; auto.
+      + intros Hp; inversion Hp; auto.
+  Qed.
+
+  (* mediation, positional form *)
+  Lemma mediation : forall i e t c d p,
+    nth_error (fst (router_call R D tb q)) i = Some e -> (e = Body t c \/ e = Deco t c) ->
+    assocN t D = Some d -> d_perm d = Some p ->
+    exists j, j < i /\ nth_error (fst (router_call R D tb q)) j = Some (Permits p c true).
+  Proof.
+    intros i e t c d p Hn He Hd Hp.
+    assert (G : guarded_from [] (fst (router_call R D tb q))).
+    { destruct router_split as (tr1 & o1 & _ & [G1 _] & Hr). simpl in G1.
+      destruct o1 as [t'|e'| |]; try (rewrite Hr; exact G1).
+      destruct Hr as (tr2 & o2 & _ & [G2 _] & Ht & _). rewrite Ht. simpl in G2.
+      apply guarded_app; [exact G1|]. apply guarded_raised. exact G2. }
+    destruct (guarded_nth _ _ _ _ _ _ _ _ G Hn He Hd Hp) as [[]|H]. exact H.
+  Qed.
+
+  (* a refusal is followed at once by the 403 handling; while an exception view is being rendered
+     HTTPForbidden leaves the application instead; in no case does another event of the refused view follow *)
+  Lemma refusal_blocks : forall j p c,
+    nth_error (fst (router_call R D tb q)) j = Some (Permits p c false) ->
+    nth_error (fst (router_call R D tb q)) (S j) = Some (Raised EForbidden) \/
+    (S j = length (fst (router_call R D tb q)) /\ snd (router_call R D tb q) = Propagated EForbidden /\
+     exists k e, k < j /\ nth_error (fst (router_call R D tb q)) k = Some (Raised e)).
+  Proof.
+    intros j p c Hn.
+    destruct router_split as (tr1 & o1 & _ & [_ (R1 & _ & _)] & Hr). simpl in R1.
+    destruct o1 as [t'|e'| |].
+    - rewrite Hr in *. simpl in *. destruct (refusal_last_nth _ _ _ _ _ R1 Hn) as [_ H]. discriminate H.
+    - destruct Hr as (tr2 & o2 & _ & [_ (R2 & _ & _)] & Ht & Hf & _). simpl in R2. rewrite Ht in *.
+      destruct (Nat.lt_ge_cases j (length tr1)) as [Hlt|Hge].
+      + rewrite nth_error_app1 in Hn by exact Hlt.
+        destruct (refusal_last_nth _ _ _ _ _ R1 Hn) as [Hl Ho]. inversion Ho; subst e'.
+        left. rewrite nth_error_app2 by lia. replace (S j - length tr1) with 0 by lia. reflexivity.
+      + rewrite nth_error_app2 in Hn by exact Hge.
+        destruct (j - length tr1) as [|j'] eqn:Ej; simpl in Hn; [discriminate Hn|].
+        destruct (refusal_last_nth _ _ _ _ _ R2 Hn) as [Hl Ho].
+        right. split; [rewrite app_length; simpl; lia|]. split; [apply Hf; exact Ho|].
+        exists (length tr1), e'. split; [lia|]. rewrite nth_error_app2 by lia.
+        replace (length tr1 - length tr1) with 0 by lia. reflexivity.
+    - rewrite Hr in *. simpl in *. destruct (refusal_last_nth _ _ _ _ _ R1 Hn) as [_ H]. discriminate H.
+    - rewrite Hr in *. simpl in *. destruct (refusal_last_nth _ _ _ _ _ R1 Hn) as [_ H]. discriminate H.
+  Qed.
+
+  Lemma raised_not_permits tr : forall j p c b,
+    nth_error tr j = Some (Permits p c b) -> forall e, nth_error tr j <> Some (Raised e).
+  Proof. intros j p c b H e H'. rewrite H in H'. discriminate H'. Qed.
+
+  (* never blocked otherwise: when the main handler raises HTTPForbidden, the last thing that happened
+     is a refused check or a view callable that raises HTTPForbidden itself *)
+  Lemma forbidden_has_source : forall tr,
+    handle_request R D tb q = (tr, Raise EForbidden) ->
+    exists e, last_opt tr = Some e /\ forbidding e.
+  Proof.
+    intros tr H. pose proof handle_request_good as G. rewrite H in G. destruct G as [_ (_ & F & _)]. apply F. reflexivity.
+  Qed.
+
+  Lemma forbidden_has_source_exc : forall e tr,
+    call_view5 R D tb q fuel0 exc_classifier (q_comb_sro q) [] (CExc e) = (tr, Raise EForbidden) ->
+    exists e', last_opt tr = Some e' /\ forbidding e'.
+  Proof.
+    intros e tr H. pose proof (call_view5_good fuel0 exc_classifier (q_comb_sro q) [] (CExc e)) as G.
+    rewrite H in G. destruct G as [_ (_ & F & _)]. apply F. reflexivity.
+  Qed.
+
+  (* the policy is asked only on behalf of a registered view that closed over that permission *)
+  Lemma permits_on_behalf : forall p c b, In (Permits p c b) (fst (router_call R D tb q)) -> on_behalf p.
+  Proof.
+    intros p c b Hin.
+    destruct router_split as (tr1 & o1 & _ & [_ (_ & _ & P1)] & Hr). simpl in P1.
+    destruct o1 as [t'|e'| |]; try (rewrite Hr in Hin; simpl in Hin; eauto).
+    destruct Hr as (tr2 & o2 & _ & [_ (_ & _ & P2)] & Ht & _). simpl in P2. rewrite Ht in Hin.
+    apply in_app_or in Hin. destruct Hin as [H|[H|H]]; [eauto|discriminate H|eauto].
+  Qed.
+
+  Lemma unprotected_never_asked :
+    (forall t d, In (t, d) D -> d_perm d = None /\ forall p bh, d_body d <> Slash (Some p) bh) ->
+    forall p c b, ~ In (Permits p c b) (fst (router_call R D tb q)).
+  Proof.
+    intros HD p c b Hin. destruct (permits_on_behalf _ _ _ Hin) as (t & d & Hd & Hp).
+    assert (Hmem : In (t, d) D).
+    { clear -Hd. induction D as [|[k v] r IH]; simpl in *; [discriminate|].
+      destruct (N.eqb t k) eqn:E; [apply N.eqb_eq in E; inversion Hd; subst; left; reflexivity|right; auto]. }
+    destruct (HD _ _ Hmem) as [H1 H2]. destruct Hp as [Hp|(bh & Hb)]; [congruence|]. eapply H2; eauto.
+  Qed.
+End Inv.
